@@ -18,7 +18,7 @@ func Sound(r *rig.Rng) *Program {
 	io(0x25, 0xff)
 	loop := pc
 	for k := 0; k < 40; k++ {
-		switch r.Intn(5) {
+		switch r.Intn(6) {
 		case 0:
 			io(0x10, r.U8()&0x7f)
 			io(0x12, 0xf0|r.U8()&0x0f)
@@ -38,6 +38,14 @@ func Sound(r *rig.Rng) *Program {
 			io(0x23, 0x80)
 		case 4:
 			io(0x25, r.U8())
+		case 5:
+			// the sound hardware is switched off in mid-play (samples may still be on their way
+			// to the host) and on again
+			io(0x26, 0x00)
+			emit(0x06, uint8(1+r.Intn(40)), 0x05, 0x20, 0xfd)
+			io(0x26, 0x80)
+			io(0x24, 0x77)
+			io(0x25, 0xff)
 		}
 		io(0x01, uint8(k)) // a serial byte per item: a logical clock for harnesses that cannot count frames
 		// burn some time: LD B,n; DEC B; JR NZ,-3
